@@ -26,7 +26,8 @@ func redundantSprint(m dsl.Matcher) {
 //doc:after   defer f()
 func deferUnlambda(m dsl.Matcher) {
 	m.Match(`defer func() { $f($*args) }()`).
-		Where(m["f"].Node.Is(`Ident`) && m["f"].Text != "panic" && m["f"].Text != "recover" && m["args"].Const).
+		Where(m["f"].Node.Is(`Ident`) && m["f"].Text != "panic" && m["f"].Text != "recover" && m["args"].Const &&
+			!m["f"].Object.Is(`Var`)). // a function variable can be re-assigned before the deferred call runs
 		Report("can rewrite as `defer $f($args)`")
 
 	m.Match(`defer func() { $pkg.$f($*args) }()`).
